@@ -50,7 +50,7 @@ pub fn run(ctx: &mut Ctx) {
     let n = if ctx.thorough { 20000 } else { 1200 };
     for i in 0..n {
         let mut rng = ctx.rng.fork();
-        // the second half of the stream stays inside the builder model (Boolean, integers, strings, lists, structs)
+        // the second half of the stream stays inside the builder model (Boolean, integers, floats, temporal kinds, strings, lists, structs)
         arrgen::CORE_ONLY.store(i >= n / 2, std::sync::atomic::Ordering::Relaxed);
         let fields = arrgen::gen_schema(&mut rng);
         let nrows = *rng.pick(&[0usize, 1, 1, 2, 3, 7, 8, 9, 17]);
